@@ -220,10 +220,10 @@ def gen_text_log(rng, p):
 # containers
 
 
-def to_gz(data, rng=None, level=None, mtime=0, name=None, extra=None, comment=None):
+def to_gz(data, rng=None, level=None, mtime=0, name=None, extra=None, comment=None, hcrc=False):
     level = 6 if level is None else level
     buf = io.BytesIO()
-    if extra is None and comment is None:
+    if extra is None and comment is None and not hcrc:
         with gzip.GzipFile(filename=name or "", mode="wb", compresslevel=level, fileobj=buf, mtime=mtime) as g:
             g.write(data)
         return buf.getvalue()
@@ -236,6 +236,8 @@ def to_gz(data, rng=None, level=None, mtime=0, name=None, extra=None, comment=No
         flg |= 8
     if comment is not None:
         flg |= 16
+    if hcrc:
+        flg |= 2
     hdr.append(flg)
     hdr += struct.pack("<I", int(mtime) & 0xFFFFFFFF)
     hdr += b"\x00\x03"
@@ -245,6 +247,8 @@ def to_gz(data, rng=None, level=None, mtime=0, name=None, extra=None, comment=No
         hdr += name.encode("latin-1", "replace") + b"\x00"
     if comment is not None:
         hdr += comment + b"\x00"
+    if hcrc:
+        hdr += struct.pack("<H", zlib.crc32(bytes(hdr)) & 0xFFFF)
     c = zlib.compressobj(level, zlib.DEFLATED, -15)
     body = c.compress(data) + c.flush()
     return bytes(hdr) + body + struct.pack("<II", zlib.crc32(data) & 0xFFFFFFFF, len(data) & 0xFFFFFFFF)
@@ -256,6 +260,56 @@ def to_bz2(data, level=9):
 
 def to_xz(data, preset=6, check=lzma.CHECK_CRC32):
     return lzma.compress(data, format=lzma.FORMAT_XZ, check=check, preset=preset)
+
+
+def _xz_varint(v):
+    out = bytearray()
+    while True:
+        b = v & 0x7F
+        v >>= 7
+        if v:
+            out.append(b | 0x80)
+        else:
+            out.append(b)
+            return bytes(out)
+
+
+def to_xz_multiblock(data, chunk, preset=6, check=lzma.CHECK_CRC32):
+    """one xz stream holding several blocks (what `xz -T` / `xz --block-size` write): every chunk is compressed on its
+    own, its block is lifted out of the single-block stream, and one index with a record per block is written"""
+    if not data or chunk >= len(data):
+        return to_xz(data, preset, check)
+    header = flags = None
+    blocks = []
+    records = []
+    for i in range(0, len(data), chunk):
+        s1 = lzma.compress(data[i:i + chunk], format=lzma.FORMAT_XZ, check=check, preset=preset)
+        header, flags = s1[:12], s1[-4:-2]
+        bs = (struct.unpack("<I", s1[-8:-4])[0] + 1) * 4
+        idx = s1[-12 - bs:-12]
+        assert idx[0] == 0 and idx[1] == 1
+        k = 2
+        vals = []
+        for _ in range(2):
+            v = sh = 0
+            while True:
+                c = idx[k]
+                k += 1
+                v |= (c & 0x7F) << sh
+                sh += 7
+                if not c & 0x80:
+                    break
+            vals.append(v)
+        records.append(tuple(vals))
+        blocks.append(s1[12:-12 - bs])
+    body = b"\x00" + _xz_varint(len(records)) + b"".join(_xz_varint(a) + _xz_varint(b) for (a, b) in records)
+    body += b"\x00" * (-len(body) % 4)
+    body += struct.pack("<I", zlib.crc32(body) & 0xFFFFFFFF)
+    back = struct.pack("<I", len(body) // 4 - 1)
+    footer = struct.pack("<I", zlib.crc32(back + flags) & 0xFFFFFFFF) + back + flags + b"YZ"
+    out = header + b"".join(blocks) + body + footer
+    assert lzma.decompress(out) == data
+    return out
 
 
 # --- xxhash32, needed for LZ4 frame header / content checksums
@@ -385,7 +439,10 @@ def random_container(rng, kind, data, mtime=0, name="x.log"):
         return data, {"kind": "plain"}
     if kind == "gz":
         lvl = rng.choice((0, 1, 6, 9))
-        style = rng.randrange(4)
+        style = rng.randrange(5)
+        if style == 4:
+            return (to_gz(data, level=lvl, mtime=mtime, name=name if rng.random() < 0.5 else None, hcrc=True),
+                    {"kind": "gz", "level": lvl, "hdr": "hcrc"})
         if style == 0:
             return to_gz(data, level=lvl, mtime=mtime), {"kind": "gz", "level": lvl, "hdr": "plain"}
         if style == 1:
@@ -401,6 +458,10 @@ def random_container(rng, kind, data, mtime=0, name="x.log"):
     if kind == "xz":
         preset = rng.choice((0, 3, 6))
         chk = rng.choice((lzma.CHECK_CRC32, lzma.CHECK_CRC64, lzma.CHECK_NONE))
+        if len(data) > 200 and len(data) < 3_000_000 and rng.random() < 0.35:
+            chunk = rng.choice((100, 1000, 4096, 65536, max(1, len(data) // 3)))
+            if len(data) // chunk <= 400:
+                return to_xz_multiblock(data, chunk, preset, chk), {"kind": "xz", "preset": preset, "check": chk, "block_bytes": chunk}
         return to_xz(data, preset, chk), {"kind": "xz", "preset": preset, "check": chk}
     if kind == "lz4":
         bid = rng.choice((4, 5, 6, 7))
